@@ -367,7 +367,7 @@ func zzwTail() (remainder, rest, query string) {
 // handler must see (or that nothing may be served) for a symbolic remainder and query.
 func HarnessC32HostToPath() {
 	remainder, rest, query := zzwTail()
-	backend := &zzwBackend{names: map[string]bool{"dnslink.long-name.example.com": true, "en.wikipedia-on-ipfs.org": true}}
+	backend := &zzwBackend{names: map[string]bool{"dnslink.long-name.example.com": true, "en.wikipedia-on-ipfs.org": true, "my-site": true}}
 	c := Config{PublicGateways: map[string]*PublicGateway{
 		"dweb.link":                     {Paths: []string{"/ipfs", "/ipns"}, UseSubdomains: true},
 		"ipfs.io":                       {Paths: []string{"/ipfs", "/ipns"}, UseSubdomains: false},
@@ -379,7 +379,7 @@ func HarnessC32HostToPath() {
 	w := &zzwRW{h: http.Header{}}
 	cidPath := "/ipfs/bafybeif7a7gdklt6hodwdrmwmxnhksctcuav6lfxlcyfz4khzl3qfmvcgu"
 
-	switch verifrt.NondetRange("case", 0, 7) {
+	switch verifrt.NondetRange("case", 0, 10) {
 	case 0: // path gateway without subdomains: the request passes through untouched
 		h(w, zzwRequest("ipfs.io", cidPath+remainder, query, false))
 		verifrt.Assert("C32.path-gateway-passes-request-through", next.calls == 1 && w.code == 200 && next.path == cidPath+remainder && next.rawQuery == query)
@@ -453,6 +453,17 @@ func HarnessC32HostToPath() {
 				verifrt.Assert("C32.served-label-fits-63", len(gotRoot) <= 63)
 			}
 		}
+	case 8: // a single-label DNSLink name that contains a hyphen and has a record of its own ("my-site"), while
+		// its un-inlined reading ("my.site") has none: the subdomain names "my-site"
+		h(w, zzwRequest("my-site.ipns.dweb.link", remainder, query, false))
+		verifrt.Assert("C32.hyphenated-single-label-dnslink-kept", next.calls == 1 && next.path == "/ipns/my-site"+remainder && next.rawQuery == query)
+	case 9: // inlined label whose un-inlined name has the record: mapped to the FQDN
+		h(w, zzwRequest("en-wikipedia--on--ipfs-org.ipns.dweb.link", remainder, query, false))
+		verifrt.Assert("C32.inlined-subdomain-maps-to-fqdn", next.calls == 1 && next.path == "/ipns/en.wikipedia-on-ipfs.org"+remainder && next.rawQuery == query)
+	case 10: // neither reading has a record: the request still reaches the handler under /ipns/ with one of
+		// the two readings of the label (the un-inlined one is documented), remainder and query kept
+		h(w, zzwRequest("no-record.ipns.dweb.link", remainder, query, false))
+		verifrt.Assert("C32.unknown-inlined-label-keeps-a-reading", next.calls == 1 && (next.path == "/ipns/no.record"+remainder || next.path == "/ipns/no-record"+remainder) && next.rawQuery == query)
 	}
 	verifrt.Observe("code", w.code)
 	verifrt.Observe("nextPath", next.path)
